@@ -91,7 +91,17 @@ def one_case(rng, res):
     # patterns apply to paths relative to the recorded directory: anchored ones (a slash at the start or inside) and
     # ones that match a component of the directory's own location tell "relative to the directory" from anything else
     patterns = rng.choice([[], [], [], ["*.pyc"], ["sub"], ["*.txt"], ["sub/deep"], ["/a"], ["/bar.txt", "/lib"], ["deep/*"],
-                           ["build"], ["loc*"], ["lib/**/x y"]])
+                           ["build"], ["loc*"], ["lib/**/x y"], ["build/"], ["sub/"], ["**/cache/"]])
+    if patterns and patterns[0].endswith("/"):
+        # a pattern with a trailing slash names directories only: a regular file of that name (here: a script next to
+        # the output directory it produces) is not excluded by it
+        nm = patterns[0].rstrip("/").split("/")[-1]
+        if not (nm in tree and tree[nm][0] == "d"):
+            tree[nm] = ("d", {"out.o": ("f", b"object\n"), "deep": ("d", {"gen.c": ("f", b"int g;\n")})})
+        tools = tree.get("tools") if tree.get("tools", ("f",))[0] == "d" else None
+        if tools is None:
+            tree["tools"] = tools = ("d", {})
+        tools[1][nm] = ("f", b"#!/bin/sh\nmake\n")
     name = rng.choice(["d", "my dir", "ü", "loc/build/out", "build", "x~/d"])
     variants = [("base", tree)]
     t2, edits = c19.edit_tree(rng, tree)
